@@ -58,6 +58,13 @@ FOREIGN_ATTRS = [
     'cfg_attr ( any ( ) , derive ( Clone ) )',
     'rustfmt :: skip',
     'must_use',
+    'repr ( packed )',
+    'repr ( C , packed ( 2 ) )',
+    'repr ( align ( 8 ) )',
+    'repr ( transparent )',
+    'non_exhaustive',
+    'derive ( Debug )',
+    'cfg ( all ( ) )',
 ]
 # foreign attributes with a multi-segment path whose LAST segment is spelled like a helper attribute (token-level
 # generators only: rustc could not resolve them).  derive_ex owns bare identifiers only.
